@@ -18,8 +18,6 @@ impl ModuleLoader {
             )));
         }
 
-        let module_path_str = needs.path.join(".");
-
         if stdlib::is_std_module(&needs.path) {
             return self.load_std_module(needs, vm);
         }
@@ -49,11 +47,17 @@ impl ModuleLoader {
             )));
         }
 
-        if let Some(sym) = symbol.as_ref()
-            && self.loaded_modules.contains_key(&module_key)
-        {
-            return Ok(LoadResult::Symbol(sym.clone()));
-        }
+        // `needs m.symbol` is a selective import of `symbol` from m
+        let effective_needs = if let Some(sym) = &symbol {
+            NeedsStmt {
+                path: actual_path.clone(),
+                kind: ImportKind::Symbols(vec![sym.clone()]),
+                span: needs.span,
+            }
+        } else {
+            needs.clone()
+        };
+        let needs = &effective_needs;
 
         if self.loaded_modules.contains_key(&module_key) {
             if let Some(prev) = self.native_fingerprints.get(&module_key).cloned() {
@@ -64,7 +68,7 @@ impl ModuleLoader {
                     .ok_or_else(|| {
                         AelysError::Compile(CompileError::new(
                             CompileErrorKind::ModuleNotFound {
-                                module_path: module_path_str.clone(),
+                                module_path: actual_path_str.clone(),
                                 searched_paths: vec![],
                             },
                             needs.span,
@@ -75,7 +79,7 @@ impl ModuleLoader {
                 if current.as_ref() != Some(&prev) && !vm.config().allow_hot_reload {
                     return Err(AelysError::Compile(CompileError::new(
                         CompileErrorKind::InvalidNativeModule {
-                            module: module_path_str.clone(),
+                            module: actual_path_str.clone(),
                             reason: "hot reload disabled".to_string(),
                         },
                         needs.span,
@@ -90,7 +94,7 @@ impl ModuleLoader {
             let module_info = self.loaded_modules.get(&module_key).ok_or_else(|| {
                 AelysError::Compile(CompileError::new(
                     CompileErrorKind::ModuleNotFound {
-                        module_path: module_path_str.clone(),
+                        module_path: actual_path_str.clone(),
                         searched_paths: vec![],
                     },
                     needs.span,
@@ -105,7 +109,7 @@ impl ModuleLoader {
                             return Err(AelysError::Compile(CompileError::new(
                                 CompileErrorKind::SymbolNotFound {
                                     symbol: symbol.clone(),
-                                    module: module_path_str.clone(),
+                                    module: actual_path_str.clone(),
                                 },
                                 needs.span,
                                 self.source.clone(),
@@ -116,7 +120,7 @@ impl ModuleLoader {
                             AelysError::Compile(CompileError::new(
                                 CompileErrorKind::SymbolNotFound {
                                     symbol: symbol.clone(),
-                                    module: module_path_str.clone(),
+                                    module: actual_path_str.clone(),
                                 },
                                 needs.span,
                                 self.source.clone(),
@@ -132,7 +136,7 @@ impl ModuleLoader {
                             AelysError::Compile(CompileError::new(
                                 CompileErrorKind::SymbolNotFound {
                                     symbol: name.clone(),
-                                    module: module_path_str.clone(),
+                                    module: actual_path_str.clone(),
                                 },
                                 needs.span,
                                 self.source.clone(),
@@ -151,7 +155,7 @@ impl ModuleLoader {
                             AelysError::Compile(CompileError::new(
                                 CompileErrorKind::SymbolNotFound {
                                     symbol: name.clone(),
-                                    module: module_path_str.clone(),
+                                    module: actual_path_str.clone(),
                                 },
                                 needs.span,
                                 self.source.clone(),
@@ -166,28 +170,18 @@ impl ModuleLoader {
 
         self.loading_stack.push(module_key.clone());
 
-        let effective_needs = if let Some(sym) = &symbol {
-            NeedsStmt {
-                path: actual_path.clone(),
-                kind: ImportKind::Symbols(vec![sym.clone()]),
-                span: needs.span,
-            }
-        } else {
-            needs.clone()
-        };
-
         let result = match resolution.kind {
             aelys_modules::resolution::ModuleKind::Script => {
                 self.compile_module(
                     &resolution.path,
                     &module_key,
                     &actual_path_str,
-                    &effective_needs,
+                    needs,
                     vm,
                 )
             }
             aelys_modules::resolution::ModuleKind::Native => {
-                self.load_native_module(&resolution.path, &actual_path_str, &effective_needs, vm)
+                self.load_native_module(&resolution.path, &actual_path_str, needs, vm)
             }
         };
 
@@ -195,10 +189,6 @@ impl ModuleLoader {
 
         result?;
 
-        if let Some(sym) = symbol {
-            Ok(LoadResult::Symbol(sym))
-        } else {
-            Ok(self.get_load_result(needs))
-        }
+        Ok(self.get_load_result(needs))
     }
 }
